@@ -143,7 +143,7 @@ THIRD = {
 
 THIRD_DEVICES = {"34:111111": {"class": "THM"}, "29:111111": {"class": "REM"}, "01:999999": {"class": "CTL"}, "32:111111": {"class": "FAN"}}
 
-BENIGN = ("rep", "third")  # (a cancelled attempt is judged like a faulty one: it must end cleanly and be retryable)
+BENIGN = ("rep", "third", "recall")  # (a cancelled attempt is judged like a faulty one: it must end cleanly and be retryable)
 
 
 def _ensure_fakeable(dev) -> None:
@@ -191,6 +191,8 @@ class BindWorld:
         self.cmd_fate: dict[str, str] = {}
         self.tasks: dict = {}
         self.cancelled: set = set()
+        self.recalled: list = []
+        self.recalls: list = []
         self.log: list[tuple] = []
 
     # -- ether
@@ -237,6 +239,10 @@ class BindWorld:
                 menu += [(("third", k), 1) for k in sorted(THIRD) if k not in self.third_done]
             if "cancel" in self.dev:
                 menu += [(("cancel", n), 1) for n, t in sorted(self.tasks.items()) if not t.done() and n not in self.cancelled]
+            if "recall" in self.dev and not self.recalled:
+                # the application calls the same binding entry point again on a device whose handshake is in progress (it must be refused,
+                # and the handshake in progress must not notice)
+                menu += [(("recall", n), 1) for n, t in sorted(self.tasks.items()) if not t.done()]
             if frame in self.cmd_fate:  # every retransmission of a command that is lost as a whole shares its fate
                 fate = (self.cmd_fate[frame],)
             elif len(menu) > 1:
@@ -248,6 +254,9 @@ class BindWorld:
         if k == "cancel":  # the caller abandons its attempt now (the frame itself is heard normally)
             self.cancelled.add(fate[1])
             loop.call_soon(self.tasks[fate[1]].cancel)
+        if k == "recall":
+            self.recalled.append(fate[1])
+            loop.call_soon(self._recall, fate[1])
         if k == "lose_all":
             return
         times = [0.01]
@@ -266,6 +275,27 @@ class BindWorld:
             self.third_done.add(fate[1])
             for gi in (0, 1):
                 loop.call_later(0.012, self._hear, gi, THIRD[fate[1]])
+
+    def _recall(self, role: str) -> None:
+        accept_codes, idx, offer_codes, confirm_code, ratify = self._args()
+        rec = {"role": role}
+        self.recalls.append(rec)
+
+        async def go():
+            try:
+                if role == "resp":
+                    await self.resp._wait_for_binding_request(accept_codes, idx=idx, require_ratify=False)
+                else:
+                    await self.supp._initiate_binding_process(offer_codes, confirm_code=confirm_code, ratify_cmd=None)
+                rec["res"] = ("ok",)
+            except asyncio.CancelledError:
+                rec["res"] = ("cancelled",)
+            except BaseException as e:  # noqa: BLE001
+                from ramses_rf import exceptions as rexc
+
+                rec["res"] = ("exc", type(e).__name__, isinstance(e, rexc.BindingError))
+
+        self.loop.create_task(go())
 
     # -- callers
     def _args(self, flow=None):
@@ -351,6 +381,7 @@ class BindWorld:
         obs: dict = {}
         obs["first"] = self.attempt(p.get("supp_delay", 0.0), HORIZON)
         obs["kinds"] = sorted({l[0] for l in self.ch.labels if l[0] != "ok"})
+        obs["recalls"] = [dict(r) for r in self.recalls]
         self.faults = False
         self.cmd_fate.clear()
         obs["state_at_end"] = self.state()
@@ -449,6 +480,10 @@ def oracle(obs: dict, params: dict) -> list[tuple[str, str]]:
         ctx += ", public initiate_binding_process()"
     api_tag = f":public-api:{params['flow']}" if api else ""
     _judge_attempt("first", obs["first"], flow, benign_only, out, ctx, api, api_tag)
+    for r in obs.get("recalls", ()):
+        res = r.get("res")
+        if res is not None and not (res[0] == "exc" and res[2]):
+            out.append((f"C20:second-call-not-refused:{r['role']}:{res[0] if res[0] != 'exc' else res[1]}", f"a second call of the {r['role']}'s binding entry point while its handshake was in progress ended with {res} (a binding error was due) ({ctx})"))
     st = obs["state_at_end"]
     for role in ("resp", "supp"):
         if st[f"{role}_binding"]:
@@ -497,6 +532,9 @@ def scenarios(quick: bool) -> list[tuple[dict, int]]:
     for flow in ("RND-CTL", "CO2-FAN", "DHW-CTL"):
         for d in (4.8, 4.4):
             sc.append(({"flow": flow, "dev": ("lose", "cancel"), "retry_supp_delay": d}, 2 if quick else 3))
+    # the application calls the entry point a second time while the handshake is in progress
+    for flow in ("RND-CTL", "CO2-FAN"):
+        sc.append(({"flow": flow, "dev": ("recall", "rep")}, 1 if quick else 2))
     # the fresh attempt is made by another supplicant to the same respondent (two remotes paired with one fan, one after the other)
     for a in ("CO2-FAN", "RND-CTL", "DHW-CTL"):
         sc.append(({"flow": a, "retry_flow": a + "#2", "dev": ("rep", "lose", "late", "cancel")}, 1 if quick else 2))
